@@ -105,6 +105,34 @@ class Pfx:
         return self._c.discard(reason)
 
 
+def has_twin_faces(F):
+    """two faces on the same vertex set (a two-face 'pillow' / dihedron component: a legitimate closed manifold, although the
+    library's face_id key cannot tell the two apart)"""
+    ks = [key(f) for f in F]
+    return len(set(ks)) != len(ks)
+
+
+def surf_error(nV, F, allow_twins=False):
+    """SurfRef.validate(); with allow_twins the 'pairwise distinct vertex sets' requirement is dropped (everything else -
+    distinct vertices per face, every half-edge once, every vertex link one cycle or path - still holds for a pillow)"""
+    ref = SurfRef(nV, F)
+    if not allow_twins or not has_twin_faces(ref.F):
+        return ref.validate()
+    seen = set()
+    for iF, f in enumerate(ref.F):
+        if len(f) < 3 or len(set(f)) != len(f) or any(v < 0 or v >= nV for v in f):
+            return f"face {iF} malformed"
+        for i in range(len(f)):
+            h = (f[i], f[(i + 1) % len(f)])
+            if h in seen:
+                return f"half-edge {h} twice"
+            seen.add(h)
+    for v in range(nV):
+        if v in ref.v2f and ref.ring(v) is None:
+            return f"vertex {v} link is not a single path/cycle"
+    return None
+
+
 def canon(f):
     f = [int(x) for x in f]
     i = f.index(min(f))
@@ -113,6 +141,12 @@ def canon(f):
 
 def read_vertices(cont):
     """(n,3) float array or None if some entry is not a 3-vector of finite numbers"""
+    try:        # fast path: a regular (n,3) block of numbers
+        A = np.array(list(cont), dtype=float)
+        if A.ndim == 2 and A.shape[1] == 3 and np.all(np.isfinite(A)):
+            return A
+    except Exception:
+        pass
     out = []
     try:
         for v in cont:
@@ -191,7 +225,12 @@ def newell(P):
 
 
 def total_area(V, F):
-    return float(sum(np.linalg.norm(newell(V[list(f)])) for f in F))
+    tri = [f for f in F if len(f) == 3]
+    a = 0.0
+    if tri:
+        T = V[np.array(tri, dtype=np.int64)]
+        a += float(np.sum(np.linalg.norm(np.cross(T[:, 1] - T[:, 0], T[:, 2] - T[:, 0]), axis=1))) / 2
+    return a + float(sum(np.linalg.norm(newell(V[list(f)])) for f in F if len(f) != 3))
 
 
 def is_flat(V, F):
@@ -361,7 +400,7 @@ def check_triangulation_step(ctx, S0, S1, fids, what):
                      f"{what}: a face that is not being triangulated changed or moved"):
         return False
     ref1 = SurfRef(len(S1.V), S1.F)
-    err = ref1.validate()
+    err = surf_error(len(S1.V), S1.F, has_twin_faces(S0.F))
     if not ctx.check(err is None, "step:valid", f"{what}: editor state is not a manifold surface: {err}"):
         return False
     s = pos_tol(S1.V) / 1e-9
@@ -498,7 +537,7 @@ def shadow_run(ctx, S0, steps, what):
 
 # ----------------------------------------------------------------------------------------------- sweeps
 
-def surface_sweep(m, nV, F, sort_on, seed, ctx, where):
+def surface_sweep(m, nV, F, sort_on, seed, ctx, where, only=None):
     """the C01 battery: every query kind over (a capped number of) elements, compared with the face list"""
     ref = SurfRef(nV, F)
     medges, ok = P1.edges_of(m, ref, ctx)
@@ -506,7 +545,7 @@ def surface_sweep(m, nV, F, sort_on, seed, ctx, where):
         return False
     eid = {e: i for i, e in enumerate(medges)}
     rnd = random.Random(seed)
-    kinds = list(P1.KINDS)
+    kinds = [k for k in P1.KINDS if only is None or k in only]
     rnd.shuffle(kinds)
     nF, nC, nE = len(F), ref.nC, len(medges)
 
@@ -678,6 +717,54 @@ def surf_queries(draw, lo, hi):
             for _ in range(draw(st.integers(lo, hi)))]
 
 
+def draw_unusual_elements(draw, V, F):
+    """legitimate but unusual element roles: a 'pillow' component (two faces on the same vertices, glued along all their
+    sides: the smallest closed surface), alone or next to the drawn mesh, first or last in the face list; unused vertices at
+    id 0, a middle id or the last id"""
+    V = [list(v) for v in V]
+    F = [list(f) for f in F]
+    extra = []
+    k = draw(st.integers(0, 11))
+    if k in (3, 4, 5):
+        n = 3 if draw(st.integers(0, 2)) else 4
+        if k == 5:
+            V, F = [], []
+        b = len(V)
+        zs = max([v[2] for v in V], default=0.0) + 4.0
+        V += [[1.5, 0.0, zs], [0.0, 1.5, zs], [-1.0, -0.5, zs + 0.5], [0.5, -1.5, zs]][:n] if n == 3 else [[1.5, 0.0, zs], [1.5, 1.5, zs], [0.0, 1.5, zs], [0.0, 0.0, zs]]
+        f1 = [b + i for i in range(n)]
+        r = draw(st.integers(0, n - 1))
+        f2 = f1[::-1]
+        f2 = f2[r:] + f2[:r]
+        F = ([f1, f2] + F) if draw(st.booleans()) else (F[:len(F) // 2] + [f1] + F[len(F) // 2:] + [f2])
+        extra.append("pillow" + str(n) + ("-alone" if k == 5 else ""))
+    k = draw(st.integers(0, 9))
+    if k in (4, 5, 6):
+        pos = {4: 0, 5: len(V) // 2, 6: len(V)}[k]
+        zs = min([v[2] for v in V], default=0.0) - 3.0
+        V = V[:pos] + [[0.25, 0.25, zs]] + V[pos:]
+        F = [[v + 1 if v >= pos else v for v in f] for f in F]
+        extra.append("unused-vertex-" + {4: "first", 5: "middle", 6: "last"}[k])
+    return {"V": V, "F": F, "extra": extra}
+
+
+def representable_ops(ops, second=False):
+    """operation list for a mesh with a pillow component. Midpoint (1-to-4) refinement of a pillow puts two different edges
+    between the same two midpoints, and cutting the quads that the 1-to-3-quads refinement makes of it puts the same diagonal
+    in two quads: neither result can be stored by a data model that keys edges by their end points, so those histories are
+    outside the domain. What remains: fans, triangulations, one 1-to-3-quads refinement followed by fans only."""
+    out, after_q3 = [], second
+    for name, a, b in ops:
+        if name in ("loop", "sub6"):
+            name = "quads3"
+        if after_q3:
+            name = "fan"
+        if name == "quads3":
+            after_q3 = True
+        out.append([name, a, b])
+    return out
+
+
 @st.composite
 def surface_case(draw):
     mode = draw(st.sampled_from(["any", "any", "flat", "flat", "tri"]))
@@ -688,6 +775,7 @@ def surface_case(draw):
         s = draw(G.surfaces(max_faces=36, triangulated=True, max_ops=4))
     else:
         s = draw(G.surfaces(max_faces=36, max_ops=5, keep_isolated=draw(st.integers(0, 9)) == 0))
+    s = dict(s, **draw_unusual_elements(draw, s["V"], s["F"]))
     nops = draw(st.integers(1, 4))
     ops = [[draw(st.sampled_from(SURF_OPS)), draw(st.integers(0, 10 ** 4)), draw(st.integers(0, 5))] for _ in range(nops)]
     # connectivity queried beforehand: nothing / a few individual query kinds (each touches one lazily built table)
@@ -699,11 +787,15 @@ def surface_case(draw):
         second = {"on": draw(st.sampled_from(["result", "input"])), "sweep_first": draw(st.booleans()),
                   "pre": surf_queries(draw, 0, 3),
                   "ops": [[draw(st.sampled_from(SURF_OPS)), draw(st.integers(0, 10 ** 4)), draw(st.integers(0, 5))] for _ in range(draw(st.integers(1, 2)))]}
+    if any(x.startswith("pillow") for x in s["extra"]):
+        ops = representable_ops(ops)
+        if second:
+            second["ops"] = representable_ops(second["ops"], True)
     uniform = len(set(len(f) for f in s["F"])) == 1
     return {"V": V, "F": s["F"], "tags": s["tags"], "ops": ops, "pre": pre, "sort": draw(st.integers(0, 3)) != 0,
             "form": draw_form(draw, len(V), uniform and vform == "float"), "sweep_seed": draw(st.integers(0, 1000)),
             "scale": sc, "vform": vform, "verbose": draw(st.integers(0, 4)) == 0, "second": second,
-            "env": draw_env(draw), "fail": draw_fail(draw), "placement": placement}
+            "env": draw_env(draw), "fail": draw_fail(draw), "placement": placement, "extra": s.get("extra", [])}
 
 
 def build_vertices(raw, V, vform):
@@ -762,7 +854,7 @@ def surface_invariants(ctx, V0, F0, SR, flat, what):
     nV0 = len(V0)
     ref0 = SurfRef(nV0, F0)
     refR = SurfRef(len(SR.V), SR.F)
-    err = refR.validate()
+    err = surf_error(len(SR.V), SR.F, has_twin_faces(F0))
     if not ctx.check(err is None, "result:valid", f"{what}: not an oriented manifold surface with in-range distinct-vertex faces: {err}"):
         return False
     ok = ctx.check(len(SR.V) >= nV0 and SR.V[:nV0].tobytes() == np.asarray(V0, dtype=float).tobytes(), "old-vertices",
@@ -946,7 +1038,7 @@ def fn_surface(case, ctx):
     import mouette as M
     V, F = case["V"], [list(f) for f in case["F"]]
     ref0 = SurfRef(len(V), F)
-    err = ref0.validate()
+    err = surf_error(len(V), F, True)
     if err is not None:
         raise AssertionError("invalid generated case: " + err)
     for t in case.get("tags", []):
@@ -960,6 +1052,10 @@ def fn_surface(case, ctx):
     label_pre(ctx, case["pre"], SURF_TABLE)
     if quads_with_diagonal_edge(F):
         ctx.label("quad-whose-cut-diagonal-is-an-edge")
+    for x in case.get("extra", []):
+        ctx.label("element-roles=" + x)
+    if not case.get("extra"):
+        ctx.label("element-roles=usual")
     has_border = bool(ref0.border_loops())
     ctx.nontrivial(has_border or any(len(f) != 3 for f in F) or len(case["ops"]) >= 2 or bool(second))
 
@@ -1715,6 +1811,168 @@ def fn_polyline(case, ctx):
     ctx.check(len(mV) - len(mE) == len(V) - len(E), "topology:euler", "V-E changed")
 
 
+# =============================================================================================== sizes around powers of two
+
+# (grid nu x nv cut into triangles, operation, rounds): an element count (vertices, faces) stays below 2**8 / 2**16 before the
+# refinement and reaches or passes it during the refinement (in the first or in a later round), or lands exactly on / next to it
+SIZE_SMALL = [(8, 8, "loop", 1), (7, 8, "loop", 1), (4, 8, "loop", 1), (4, 4, "loop", 2), (6, 6, "quads3", 1), (5, 5, "sub6", 1),
+              (9, 7, "loop", 1), (3, 3, "loop", 3), (6, 7, "quads3", 1), (10, 12, "loop", 1)]
+SIZE_BIG = [(128, 128, "loop", 1), (64, 64, "loop", 2), (64, 128, "loop", 1), (105, 105, "quads3", 1), (127, 129, "loop", 1), (74, 74, "sub6", 1)]
+LOCAL_KINDS = ["next_corner", "previous_corner", "opposite_corner", "corner_to_half_edge", "half_edge_to_corner", "corner_to_face", "direct_face",
+               "direct_face_inds", "edge_to_faces", "opposite_face", "vertex_to_vertices", "vertex_to_faces", "vertex_to_corners", "vertex_to_edges",
+               "vertex_to_corner_in_face", "face_to_vertices", "face_to_edges", "face_to_corners", "face_to_first_corner", "face_to_faces",
+               "in_face_index", "edge_id", "other_edge_end", "edge_to_vertices", "is_edge_on_border", "is_triangular"]
+
+
+def grid_counts(nu, nv):
+    return (nu + 1) * (nv + 1), 3 * nu * nv + nu + nv, 2 * nu * nv
+
+
+@st.composite
+def size_case(draw):
+    """kind 'small': a grid whose counts cross 2**8; 'padded': a small grid plus unused vertices (legitimate: vertices that
+    belong to no face) so that the vertex count sits just below 2**8 / 2**16 and reaches it during the refinement, exactly or
+    by a margin; 'big': a grid that really has > 16000 vertices (about one case in twelve)"""
+    k = draw(st.integers(0, 11))
+    pad, where = 0, "back"
+    if k == 7:
+        nu, nv, op, n = draw(st.sampled_from(SIZE_BIG))
+        kind = "big"
+    elif k in (0, 1, 2):
+        nu, nv, op, n = draw(st.sampled_from(SIZE_SMALL))
+        kind = "small"
+    else:
+        kind = "padded"
+        nu, nv = draw(st.integers(1, 6)), draw(st.integers(1, 6))
+        op, n = draw(st.sampled_from([("loop", 1), ("loop", 1), ("loop", 2), ("quads3", 1), ("sub6", 1), ("loop", 3)]))
+        nV, nE, nF = grid_counts(nu, nv)
+        T = 2 ** draw(st.sampled_from([16, 16, 16, 8]))
+        added = nE if op == "loop" else nE + nF          # new vertices of the first round
+        # vertex count before the refinement: T - d with 1 <= d <= added (+1: stays just below) -> T is reached exactly, passed, or missed by one
+        d = draw(st.sampled_from([1, 2, added - 1, added, added + 1, max(1, added // 2)]))
+        pad = max(0, T - max(1, d) - nV)
+        where = draw(st.sampled_from(["front", "back", "middle"]))
+    return {"nu": nu, "nv": nv, "op": op, "n": n, "diag": draw(st.integers(0, 2)), "height": draw(st.booleans()),
+            "form": draw(st.sampled_from(["list", "tuple", "np:int32", "np:uint16", "from_arrays"])),
+            "pre": draw(st.sampled_from(["none", "edge_id", "half-edges"])), "sweep_seed": draw(st.integers(0, 1000)),
+            "kind": kind, "pad": pad, "pad_where": where}
+
+
+def tri_grid(nu, nv, diag, height):
+    """(nu+1)(nv+1) vertices, 2 nu nv triangles; diag: 0 = all '/', 1 = all '\\', 2 = alternating"""
+    V = np.array([[float(i), float(j), 0.0] for j in range(nv + 1) for i in range(nu + 1)])
+    if height:
+        V[:, 2] = 0.25 * np.sin(0.37 * V[:, 0]) * np.cos(0.23 * V[:, 1])
+    idx = lambda i, j: j * (nu + 1) + i
+    F = []
+    for j in range(nv):
+        for i in range(nu):
+            a, b, c, d = idx(i, j), idx(i + 1, j), idx(i + 1, j + 1), idx(i, j + 1)
+            if diag == 0 or (diag == 2 and (i + j) % 2 == 0):
+                F += [[a, b, c], [a, c, d]]
+            else:
+                F += [[a, b, d], [b, c, d]]
+    return V, F
+
+
+def crossed(before, after):
+    return [f"2^{k}" for k in (8, 16) if before < 2 ** k <= after] + [f"=2^{k}{d:+d}" for k in (8, 16) for d in (-1, 0, 1) if after == 2 ** k + d]
+
+
+def fn_size(case, ctx):
+    import mouette as M
+    nu, nv, op, n = case["nu"], case["nv"], case["op"], case["n"]
+    V0, F = tri_grid(nu, nv, case["diag"], case["height"])
+    pad = int(case.get("pad", 0))
+    if pad:
+        # unused vertices (on a line below the grid) first, last, or in the middle of the vertex list
+        U = np.array([[0.001 * i, -2.0, 0.0] for i in range(pad)])
+        pos = {"front": 0, "back": len(V0), "middle": len(V0) // 2}[case.get("pad_where", "back")]
+        V0 = np.vstack([V0[:pos], U, V0[pos:]])
+        F = [[v + pad if v >= pos else v for v in f] for f in F]
+    big = len(F) > 5000
+    ctx.label("op=" + op + str(n), "records=" + case["form"], "pre=" + case["pre"], "kind=" + case.get("kind", "small"),
+              "unused-vertices=" + ("no" if not pad else case.get("pad_where", "back")))
+    ctx.nontrivial(True)
+    M.config.sort_neighborhoods = True
+    form = case["form"]
+    if form == "np:uint16" and len(V0) >= 2 ** 16:
+        form = "np:int32"
+    m = build_surface(V0.tolist(), F, form, "float")
+    if case["pre"] == "edge_id":
+        m.connectivity.edge_id(0, 1)
+    elif case["pre"] == "half-edges":
+        m.connectivity.vertex_to_faces(0)
+    snap = observe_surface(m, ctx, "input")
+    if snap is None:
+        return
+    ok, ed = ctx.call("editor:init", M.mesh.SurfaceSubdivision, m)
+    if not ok:
+        return
+    ok, _ = ctx.call("editor:enter", ed.__enter__)
+    if not ok:
+        return
+    name = {"loop": "loop", "quads3": "quads3", "sub6": "sub6"}[op]
+    what = f"{op}({n}) on a {nu}x{nv} triangulated grid ({len(V0)} vertices, {len(F)} faces)"
+    ok, _ = ctx.call("op:" + name, apply_surface_op, ed, name, None, n)
+    if not ok:
+        return
+    S1 = observe_surface(ed.mesh, ctx, what)
+    if S1 is None:
+        return
+    # reference refinement (the input is all triangles: no choice is left to the library, except the quad diagonals of the 1-to-6 split)
+    Ve, Fe = V0, F
+    for r in range(n):
+        nV_before, nF_before = len(Ve), len(Fe)
+        Ve, Fe = model_loop(Ve, Fe) if op == "loop" else model_quads3(Ve, Fe)
+        for lab in crossed(nV_before, len(Ve)):
+            ctx.label("vertices:" + lab)
+        for lab in crossed(nF_before, len(Fe) * (2 if op == "sub6" else 1)):
+            ctx.label("faces:" + lab)
+    if op == "sub6":
+        # every quad (A, mAB, S, mCA) cut by one of its diagonals
+        if not ctx.check(len(S1.V) == len(Ve) and len(S1.F) == 2 * len(Fe), "count:faces", f"{what}: {len(S1.V)} vertices / {len(S1.F)} faces, expected {len(Ve)} / {2 * len(Fe)}"):
+            return
+        Sq = SState(Ve, Fe, [], None)
+        p = match_new(S1.V[len(V0):], Ve[len(V0):], Ve)
+        if not ctx.check(p is not None and p != "ambiguous", "new-vertices", f"{what}: new vertices are not the edge midpoints and face centres"):
+            return
+        mp = list(range(len(V0))) + [len(V0) + q for q in p]
+        S1m = SState(Ve, [[mp[v] for v in f] if all(0 <= v < len(mp) for v in f) else f for f in S1.F], [], None)
+        tri_ok = sorted(canon(f) for f in S1m.F)
+        both = set()
+        for q in Fe:
+            a, b, c, d = q
+            both.add(frozenset([canon([a, b, d]), canon([b, c, d])]))
+            both.add(frozenset([canon([a, b, c]), canon([a, c, d])]))
+        got = set(tri_ok)
+        good = all(any(pair <= got for pair in (frozenset([canon([a, b, d]), canon([b, c, d])]), frozenset([canon([a, b, c]), canon([a, c, d])]))) for a, b, c, d in Fe)
+        if not ctx.check(good and len(got) == len(tri_ok), "faces", f"{what}: the triangles are not the 3 quads of every input triangle cut by a diagonal"):
+            return
+    else:
+        if not compare_refinement(ctx, S1, Ve, Fe, len(V0), what):
+            return
+    if not surface_invariants(ctx, V0, F, S1, not case["height"] or op == "loop" or True, what + " [editor state]"):
+        return
+    ok, _ = ctx.call("editor:exit", ed.__exit__, None, None, None)
+    if not ok:
+        return
+    R = ed.mesh
+    SR = observe_surface(R, ctx, what + " [result]")
+    if SR is None:
+        return
+    if not ctx.check(SR.V.tobytes() == S1.V.tobytes() and SR.F == S1.F, "editor:exit", f"{what}: leaving the block changed vertices or faces"):
+        return
+    ctx.check(SR.corners == ([v for f in SR.F for v in f], [i for i, f in enumerate(SR.F) for _ in f]), "result:corners", f"{what}: corner records are not 'every vertex of every face'")
+    surface_sweep(R, len(SR.V), SR.F, True, case["sweep_seed"], ctx, what + " [result object]", only=LOCAL_KINDS if big else None)
+    pin = Pfx(ctx, "input:")
+    Sin = observe_surface(m, pin, what)
+    if Sin is not None and pin.check(not same_state(Sin, snap) or not same_state(Sin, SR), "mixture", f"{what}: input object is neither its former self nor the result"):
+        if not big:
+            St = SR if not same_state(Sin, SR) else snap
+            surface_sweep(m, len(St.V), St.F, True, case["sweep_seed"] + 1, pin, what + " [input object]")
+
+
 # =============================================================================================== self test / registration
 
 def self_test():
@@ -1755,6 +2013,7 @@ SUBCHECKS = [
     SubCheck("volume_edit", volume_case(), fn_volume, quick=300, thorough=1500),
     SubCheck("polyline_split", polyline_case(), fn_polyline, quick=200, thorough=1500),
     SubCheck("double_boundary", ears_case(), fn_ears, quick=160, thorough=800),
+    SubCheck("size_thresholds", size_case(), fn_size, quick=24, thorough=40, watchdog=(150, 400)),
 ]
 
 
